@@ -101,6 +101,16 @@ Case draw_c07_case(const model::Desc & d)
     for (auto & w : c.data) {
         w = draw_value(d.layers[arr].out);
     }
+    // one float case in four stores the format's own (finite) header / footer words next to each other
+    if (d.layers[arr].out == Sc::f32 && c.data.size() >= 2 && *in_range<unsigned>(0, 3) == 0) {
+        const bool footer = *in_range<unsigned>(0, 1) == 1;
+        uint64_t pos = *in_range<uint64_t>(0, c.data.size() - 2);
+        if (*in_range<unsigned>(0, 1) == 0) {
+            pos -= pos % d.layers[arr].M;
+        }
+        c.data[pos] = footer ? 0xC04F1E70u : 0xC04F1EABu;
+        c.data[pos + 1] = (footer ? 0xCB010000u : 0xAB010000u) + *in_range<uint32_t>(0, 2);
+    }
     return c;
 }
 
